@@ -5,15 +5,15 @@ import RTV.Model.DtExtract2
 records `|`. `<v>` = `basicMatchStart:mdtLenFixed:rangeRstrip`, `<w>` = `yearPeriodEnd:centuryOffset`.
   dy.century <w> <n> <start:len:ws:k:s:e:first,..>
   dy.year    <w> <s:e:keep,..>
-  dy.single  <pt|pt..>        pt = start/len/<k:s:e:edge:rfind:inPrefix,..>     -> tokens | err:AttributeError
+  dy.single  <dates> <ords> <calls|calls..>   calls = <k:s:e:edge:rfind:inPrefix,..> per point   -> tokens | err:AttributeError
   dy.complex <start:len,..> <start:len,..>                                      -> start:len,..
   dy.first   <idx:s:e:keep,..>
   dy.tppoints <times> <nums> <ending> <c,..>                                    -> start:len,..
   dy.tpmerge <v> <times> <nums> <ending> <c,..> <pair facts as dx.range>
   dy.dtp2    <dates> <periods> <ok,..>
   dy.dtpdur  <f|f..>   f = start/len/bothEmpty/k:s:e/seg/first/unit/cm/cm/nums/plen/nid/dateUnitAfter/cm/cm/cm
-  dy.tod     <n> <spec> <tod|..> <adj|..>   tod = start/len/k:s:e/todS/todLen/blank1/pause1/k:s:e/k:s:e/k:s:e/rest2Blank/mid2Space/pause2
-                                            adj = <start:len:gap:ok,..>/<start:len:ok,..>
+  dy.tod     <n> <spec> <tod|..> <adjB|..> <adjA|..>   tod = start/len/k:s:e/todS/todLen/blank1/pause1/k:s:e/k:s:e/k:s:e/rest2Blank/mid2Space/pause2
+                                            adjB = key/<start:len:gap:ok,..>   adjA = key/<start:len:ok,..>
   dy.rel     <rel> <rest>
   dy.prefix  <start:len:k:s:e,..>          dy.eachdur <start:len:k:s:e,..>
   dy.dws     <n> <dates> <times> <ok,..> <k:s:e,..>                              -> tokens | err:IndexError
@@ -57,20 +57,19 @@ def hYear : Handler
       | _ => none))
   | _ => "bad-op"
 
-def pPoint (f : String) : Option (Ent × List RegexTokFact) :=
-  match f.splitOn "/" with
-  | [start, len, calls] =>
-    some (⟨parseInt start, parseInt len⟩, (items calls).filterMap fun
-      | [k, s, e, edge, rfind, ip] => some ⟨optMt k s e, pB edge, parseInt rfind, pB ip⟩
-      | _ => none)
-  | _ => none
+def pCalls (f : String) : List RegexTokFact :=
+  (items f).filterMap fun
+    | [k, s, e, edge, rfind, ip] => some ⟨optMt k s e, pB edge, parseInt rfind, pB ip⟩
+    | _ => none
 
+/-- `dy.single <dates> <ords> <calls|calls..>`: the i-th `calls` segment belongs to the i-th point. -/
 def hSingle : Handler
-  | [ps] =>
-    let l := (recs ps).map pPoint
-    if l.any Option.isNone then "bad-op"
+  | [d, o, segs] =>
+    let pts := singlePoints (pEnts d) (pEnts o)
+    let cs := (recs segs).map pCalls
+    if pts.length != cs.length then s!"bad-segments:{pts.length}:{cs.length}"
     else
-      match singleTimePoint (l.filterMap id) with
+      match singleTimePoint (pts.zip cs) with
       | some ts => showToks ts
       | none => "err:AttributeError"
   | _ => "bad-op"
@@ -96,7 +95,9 @@ def hTpMerge : Handler
   | _ => "bad-op"
 
 def hDtp2 : Handler
-  | [d, p, oks] => showToks (dtpDateWithTimePeriod (pEnts d) (pEnts p) (pBools oks))
+  | [d, p, oks] =>
+    let l := pBools oks
+    showToks (dtpDateWithTimePeriod (pEnts d) (pEnts p) (fun i => l.getD i false))
   | _ => "bad-op"
 
 def pDtpDur (f : String) : Option DtpDurFact :=
@@ -119,23 +120,28 @@ def pTod (f : String) : Option TodFact :=
       fOptMt m2, pB r2, pB ms2, pB p2⟩
   | _ => none
 
-def pAdj (f : String) : Option TodAdj :=
-  match f.splitOn "/" with
-  | [b, a] =>
-    some ⟨(items b).filterMap (fun
-        | [s, l, g, ok] => some ((⟨parseInt s, parseInt l⟩ : Ent), parseInt g, pB ok)
-        | _ => none),
-      (items a).filterMap (fun
-        | [s, l, ok] => some ((⟨parseInt s, parseInt l⟩ : Ent), pB ok)
-        | _ => none)⟩
-  | _ => none
+/-- `adjB` = `key/start:len:gap:ok,..` records, `adjA` = `key/start:len:ok,..` records -/
+def pAdjB (f : String) : List (Int × List (Ent × Int × Bool)) :=
+  (recs f).filterMap fun r =>
+    match r.splitOn "/" with
+    | [k, l] => some (parseInt k, (items l).filterMap fun
+        | [s, ln, g, ok] => some ((⟨parseInt s, parseInt ln⟩ : Ent), parseInt g, pB ok)
+        | _ => none)
+    | _ => none
+
+def pAdjA (f : String) : List (Int × List (Ent × Bool)) :=
+  (recs f).filterMap fun r =>
+    match r.splitOn "/" with
+    | [k, l] => some (parseInt k, (items l).filterMap fun
+        | [s, ln, ok] => some ((⟨parseInt s, parseInt ln⟩ : Ent), pB ok)
+        | _ => none)
+    | _ => none
 
 def hTod : Handler
-  | [n, spec, tods, adjs] =>
+  | [n, spec, tods, ab, aa] =>
     let t := (recs tods).map pTod
-    let a := (recs adjs).map pAdj
-    if t.any Option.isNone || a.any Option.isNone then "bad-op"
-    else showToks (dtpTimeOfDay (parseInt n) (pMts spec) (t.filterMap id) (a.filterMap id))
+    if t.any Option.isNone then "bad-op"
+    else showToks (dtpTimeOfDay (parseInt n) (pMts spec) (t.filterMap id) ⟨pAdjB ab, pAdjA aa⟩)
   | _ => "bad-op"
 
 def hRel : Handler
